@@ -49,6 +49,13 @@ pub enum Shape {
   Finalize,
   ObserveOn,
   Delay,
+  Buffer,
+  GroupBy,
+  MergeTake,
+  Debounce,
+  Throttle,
+  SubscribeOn,
+  DelaySubscription,
 }
 
 impl Shape {
@@ -67,6 +74,13 @@ impl Shape {
       Shape::Finalize => "finalize_threads",
       Shape::ObserveOn => "observe_on_threads",
       Shape::Delay => "delay_threads",
+      Shape::Buffer => "buffer",
+      Shape::GroupBy => "group_by+flat_map_threads",
+      Shape::MergeTake => "merge_threads.take",
+      Shape::Debounce => "debounce",
+      Shape::Throttle => "throttle_time",
+      Shape::SubscribeOn => "subscribe_on",
+      Shape::DelaySubscription => "delay_subscription",
     }
   }
   pub fn two_inputs(self) -> bool {
@@ -80,10 +94,20 @@ impl Shape {
         | Shape::SkipUntil
         | Shape::Sample
         | Shape::MergeAllHot
+        | Shape::Buffer
+        | Shape::MergeTake
     )
   }
   pub fn uses_pool(self) -> bool {
-    matches!(self, Shape::ObserveOn | Shape::Delay)
+    matches!(
+      self,
+      Shape::ObserveOn
+        | Shape::Delay
+        | Shape::Debounce
+        | Shape::Throttle
+        | Shape::SubscribeOn
+        | Shape::DelaySubscription
+    )
   }
 }
 
@@ -125,6 +149,21 @@ pub fn build(shape: Shape, a: &Subj, b: &Subj, fin: &Arc<AtomicUsize>) -> Pipe {
     }
     Shape::ObserveOn => a.observe_on_threads(pool_scheduler()).box_it(),
     Shape::Delay => a.delay_threads(ticks(1), pool_scheduler()).box_it(),
+    Shape::Buffer => a
+      .buffer(b.map(|_| ()))
+      .map(|v: Vec<Item>| v.iter().fold(0, |acc, x| acc * 100 + x))
+      .box_it(),
+    Shape::GroupBy => a
+      .group_by::<_, _, Subj>(|v: &Item| v % 2)
+      .flat_map_threads(|g| g)
+      .box_it(),
+    Shape::MergeTake => a.merge_threads(b).take(1).box_it(),
+    Shape::Debounce => a.debounce(ticks(1), pool_scheduler()).box_it(),
+    Shape::Throttle => a
+      .throttle_time(ticks(1), rxrust::ops::throttle::ThrottleEdge::all(), pool_scheduler())
+      .box_it(),
+    Shape::SubscribeOn => a.subscribe_on(pool_scheduler()).box_it(),
+    Shape::DelaySubscription => a.delay_subscription(ticks(1), pool_scheduler()).box_it(),
   }
 }
 
@@ -922,6 +961,8 @@ pub fn plan(prop: &str, tier: Tier) -> Option<Plan> {
         Shape::SkipUntil,
         Shape::Sample,
         Shape::MergeAllHot,
+        Shape::Buffer,
+        Shape::MergeTake,
       ] {
         let scripts: Vec<Vec<Vec<Op>>> = vec![
           vec![vec![Op::NextA(1), Op::NextA(2), Op::CompleteA], vec![Op::NextB(3), Op::NextB(4), Op::CompleteB]],
@@ -939,7 +980,7 @@ pub fn plan(prop: &str, tier: Tier) -> Option<Plan> {
       for (limit, n) in [(1usize, 2usize), (1, 3), (2, 3)] {
         sc.push(flat_scenario("C10", limit, n, c3.max(1) + if n == 2 { 1 } else { 0 }, CAP));
       }
-      for shape in [Shape::Share, Shape::Finalize] {
+      for shape in [Shape::Share, Shape::Finalize, Shape::GroupBy] {
         for s in [
           vec![vec![Op::NextA(1), Op::NextA(2), Op::CompleteA], vec![Op::Subscribe, Op::NextA(3)]],
           vec![vec![Op::NextA(1), Op::CompleteA], vec![Op::Unsubscribe, Op::Subscribe]],
@@ -949,7 +990,14 @@ pub fn plan(prop: &str, tier: Tier) -> Option<Plan> {
           sc.push(script_scenario("C10", shape, s, Oracle::Serialise, c, CAP));
         }
       }
-      for shape in [Shape::ObserveOn, Shape::Delay] {
+      for shape in [
+        Shape::ObserveOn,
+        Shape::Delay,
+        Shape::Debounce,
+        Shape::Throttle,
+        Shape::SubscribeOn,
+        Shape::DelaySubscription,
+      ] {
         for s in [
           vec![vec![Op::NextA(1), Op::CompleteA], vec![Op::NextA(2)]],
           vec![vec![Op::NextA(1), Op::NextA(2)], vec![Op::Unsubscribe]],
@@ -1086,6 +1134,9 @@ pub fn plan(prop: &str, tier: Tier) -> Option<Plan> {
         Shape::MergeAllHot,
         Shape::Share,
         Shape::Finalize,
+        Shape::Buffer,
+        Shape::GroupBy,
+        Shape::MergeTake,
       ] {
         let emit: Vec<Op> = if shape.two_inputs() {
           vec![Op::NextB(5), Op::NextA(1), Op::NextB(6), Op::CompleteA]
@@ -1096,7 +1147,14 @@ pub fn plan(prop: &str, tier: Tier) -> Option<Plan> {
         let short: Vec<Op> = emit.iter().take(2).cloned().collect();
         sc.push(script_scenario("C02", shape, vec![short, vec![Op::Unsubscribe]], Oracle::Unsub, c + 1, CAP));
       }
-      for shape in [Shape::ObserveOn, Shape::Delay] {
+      for shape in [
+        Shape::ObserveOn,
+        Shape::Delay,
+        Shape::Debounce,
+        Shape::Throttle,
+        Shape::SubscribeOn,
+        Shape::DelaySubscription,
+      ] {
         sc.push(script_scenario("C02", shape, vec![vec![Op::NextA(1), Op::CompleteA], vec![Op::Unsubscribe]], Oracle::Unsub, if q { 1 } else { 2 }, CAP));
         sc.push(script_scenario("C02", shape, vec![vec![Op::NextA(1)], vec![Op::Unsubscribe]], Oracle::Unsub, c, CAP));
       }
